@@ -149,6 +149,43 @@ def nesting(ctx, body, limit=4):
     return out
 
 
+def decisions(ctx, body):
+    """form-selecting comparisons of a value with an associated constant of the constraint (`index >= C::STD_VARIANT_COUNT`):
+    writer and reader must split at the same boundary, or one side wraps an extension alternative as an open type that the
+    other reads inline"""
+    P = ctx.program()
+    out = {}
+
+    def assoc_only(e):
+        # counts and indices are transmitted literally, so both sides split on them; a decision on MIN / MAX is the writer's
+        # out-of-root test, which the reader does not repeat (it reads the extension bit)
+        at = list(R.atoms(e))
+        return bool(at) and all(k == "assoc" and n.split("::")[-1] not in ("MIN", "MAX", "MIN_T", "MAX_T") for k, n in at)
+    for b in [body] + P.closures_of(body):
+        O = X.Origins(b, P)
+        for c in F.comparisons(b, O):
+            if c.validating or c.lex is None or c.rex is None or c.switch_bb is None:
+                continue
+            la, ra = assoc_only(c.lex), assoc_only(c.rex)
+            if la == ra:
+                continue
+            # normalise to `value - assoc`
+            if ra:
+                key = (c.rhs, c.kind, c.boundary)
+            else:
+                key = (c.lhs, c.kind, (-c.boundary + 1) if c.kind == "b" else -c.boundary)
+            out.setdefault(("decision:value-%s%s%s" % (key[0], "|" if key[1] == "b" else "==", key[2]), ()), []).append(_Loc(c.loc))
+    return out
+
+
+class _Loc:
+    def __init__(self, loc):
+        self._loc = loc
+
+    def loc(self):
+        return self._loc
+
+
 def normalise(sk, side):
     """declared equivalences between writer and reader skeletons (DESIGN.md T2)"""
     keys = set(sk)
@@ -186,6 +223,8 @@ def r2(ctx):
         sr = skeleton(ctx, rb, depth)
         sw.update(nesting(ctx, wb))
         sr.update(nesting(ctx, rb))
+        sw.update(decisions(ctx, wb))
+        sr.update(decisions(ctx, rb))
         kw, kr = normalise(sw, "w"), normalise(sr, "r")
         detail = {"writer": sorted(fmt(d) for d in kw), "reader": sorted(fmt(d) for d in kr)}
         bad = False
